@@ -10,6 +10,11 @@ Trusted vocabulary:
     HMAC of the message and empties it, `new_from_slice` accepts every key length (so its `unwrap()`
     cannot panic); `into_bytes()` is the identity on byte strings.
   * `constant_time_eq(a, b)` is equality of byte strings.
+  * `u128` is `BitVec 128` with checked arithmetic; `write_u128::<LittleEndian>` hands the 16 bytes
+    `U128.toLE` (least significant first) to `write_all`.
+  * `C::Cipher` (`aes::Aes128` / `Aes192` / `Aes256`) is its key (`AesBlock`); `encrypt_block` on
+    `GenericArray::from_mut_slice(&mut b)` panics unless `b` has 16 bytes and otherwise replaces `b` by the
+    uninterpreted `AesPrims.block key b`.
   * `Box<dyn AesCipher>` is an arbitrary member of the class `AesDyn` (a state type with one operation
     `crypt_in_place`); the Tie instantiates it with the translated `AesCtrZipKeyStream` (the only
     implementor of the trait) resp. the model's key stream.
@@ -30,6 +35,36 @@ class AesDyn where
   Cipher : Type
   /-- `cipher.crypt_in_place(target)`: the new contents of `target` and the cipher afterwards (`none` = panic) -/
   crypt_in_place : Cipher → Bytes → Option (Bytes × Cipher)
+
+/-- `u128` -/
+abbrev U128 := BitVec 128
+
+instance : Arith U128 where
+  add a b := if a.toNat + b.toNat < 2 ^ 128 then some (a + b) else none
+  sub a b := if b.toNat ≤ a.toNat then some (a - b) else none
+  mul a b := if a.toNat * b.toNat < 2 ^ 128 then some (a * b) else none
+  shl a n := if n < 128 then some (a <<< n) else none
+  shr a n := if n < 128 then some (a >>> n) else none
+  div a b := if b = 0 then none else some (a / b)
+  rem a b := if b = 0 then none else some (a % b)
+
+/-- the `n` low bytes of `v`, least significant first -/
+def leBytes : Nat → Nat → Bytes
+  | 0, _ => []
+  | n + 1, v => UInt8.ofNat (v % 256) :: leBytes n (v / 256)
+
+/-- `WriteBytesExt::write_u128::<LittleEndian>(v)`: the 16 bytes handed to `write_all` -/
+def U128.toLE (v : U128) : Bytes := leBytes 16 v.toNat
+
+/-- `C::Cipher` of `C: AesKind` (`aes::Aes128` / `Aes192` / `Aes256`): a keyed block cipher -/
+structure AesBlock where
+  key : Bytes
+  deriving DecidableEq, Repr
+
+/-- `cipher.encrypt_block(GenericArray::from_mut_slice(&mut block))`: `from_mut_slice` asserts the block
+length (16), the block function itself is uninterpreted -/
+def AesBlock.encrypt_block [AesPrims] (c : AesBlock) (block : Bytes) : Option Bytes :=
+  if block.length = 16 then some (AesPrims.block c.key block) else none
 
 /-- `Hmac<Sha1>` -/
 structure Hmac where
